@@ -389,7 +389,10 @@ theorem exCfg_bech32 : Bech32Facts exCfg := by
 
 end FaithfulBlock
 
-/-- full multi-denomination statement over the faithful model (target; see header). -/
+/-- full multi-denomination statement over the faithful model as first written down (round 0). Its two
+    bare hypotheses do not exclude ill-formed states (a state without an account, two states under one
+    store key); with the invariant that the block itself maintains (`C10.FullInv`) it is proved as
+    `C10.block_completes_with_registered_invariants`. -/
 def books_step_full : Prop :=
   ∀ (e : Distr.Env) (subs : List Distr.SubD) (w : Distr.World) (faults : List Nat),
     Distr.paramsValid e subs = true →
